@@ -3,16 +3,69 @@
 package main
 
 import (
+	"time"
+
+	"encoding/json"
 	"flag"
 	"fmt"
 	"os"
+	"path/filepath"
 	"runtime/debug"
 	"sort"
+	"svcheck/absint"
 
 	"svcheck/load"
 	"svcheck/props"
 	"svcheck/report"
 )
+
+// selfValidation folds the result of tools/selfval.py (run by run.sh just before, thorough tier) into the report:
+// every breaking variant of the catalogue that names this property must have raised an alarm, every
+// behaviour-preserving variant must have left the check silent.
+func selfValidation(r *report.Report, prop, verif string) {
+	b, err := os.ReadFile(filepath.Join(verif, "evidence", "selfval-"+prop+".json"))
+	if err != nil {
+		r.Undecided(prop+".selfval", "catalogue", "", "self-validation results not found (run through ./run.sh "+prop+" thorough): "+err.Error())
+		return
+	}
+	var sv struct {
+		Entries int `json:"entries"`
+		Results []struct {
+			Entry   string            `json:"entry"`
+			Expect  []string          `json:"expect"`
+			Silent  []string          `json:"silent"`
+			Results map[string]string `json:"results"`
+			OK      bool              `json:"ok"`
+			Error   string            `json:"error"`
+			Suite   *bool             `json:"suite_passes"`
+		} `json:"results"`
+	}
+	if json.Unmarshal(b, &sv) != nil {
+		r.Undecided(prop+".selfval", "catalogue", "", "unreadable self-validation results")
+		return
+	}
+	n := 0
+	for _, e := range sv.Results {
+		n++
+		what := "must stay silent"
+		for _, x := range e.Expect {
+			if x == prop {
+				what = "must raise an alarm"
+			}
+		}
+		suite := ""
+		if e.Suite != nil && *e.Suite {
+			suite = "; the variant passes the repository's test suite"
+		}
+		if e.OK {
+			r.OK(prop+".selfval", e.Entry, "variant of the source tree on which the check "+what+": it "+map[string]string{"alarm": "raised an alarm", "silent": "stayed silent"}[e.Results[prop]]+suite)
+		} else {
+			r.Fail(prop+".selfval", e.Entry, "", "the check itself is wrong: on this variant it "+what+" but "+e.Results[prop]+" "+e.Error)
+		}
+	}
+	r.Analysed["selfval_variants"] = n
+	r.RequireCount(prop+".selfval", "catalogue variants run against this check", n, 8)
+}
 
 type check struct {
 	level string
@@ -42,6 +95,15 @@ func main() {
 		}
 		return
 	}
+	budget := 60 * time.Second
+	if v := os.Getenv("SVCHECK_BUDGET_S"); v != "" {
+		var n int
+		fmt.Sscanf(v, "%d", &n)
+		if n > 0 {
+			budget = time.Duration(n) * time.Second
+		}
+	}
+	absint.Deadline = time.Now().Add(budget)
 	c, ok := checks[*prop]
 	if !ok {
 		fmt.Fprintf(os.Stderr, "unknown property %q\n", *prop)
@@ -73,6 +135,9 @@ func main() {
 			return r.Finish()
 		}
 		c.run(p, r)
+		if *tier == "thorough" {
+			selfValidation(r, *prop, *verif)
+		}
 		return r.Finish()
 	}()
 	os.Exit(code)
